@@ -846,6 +846,18 @@ func (t *Collection) rootAddRef() *rootNodeLoc {
 	return t.root
 }
 
+// rootAddRefOpen is rootAddRef for a caller that may find the handle already
+// closed (replaced or removed by the mutator): it then returns nil.
+func (t *Collection) rootAddRefOpen() *rootNodeLoc {
+	t.rootLock.Lock()
+	defer t.rootLock.Unlock()
+	if t.root == nil {
+		return nil
+	}
+	t.root.refs++
+	return t.root
+}
+
 func (t *Collection) rootDecRef(r *rootNodeLoc) {
 	t.rootLock.Lock()
 	freeNodeLock.Lock()
